@@ -271,12 +271,12 @@ func (c05) Execute(sc *engine.Scenario) *engine.Result {
 				}
 			}
 			switch mm.kind {
-			case "cycles":
+			case "cycles", "buswrite-cycle":
 				// lengths of ordinary instructions are C02's; the wake-up and the dispatch out of HALT are judged here
 				if kind == "instr" && key != "76" {
 					continue
 				}
-			case "regs", "mem", "if", "ie":
+			case "regs", "mem", "if", "ie", "buswrite", "buswrite-missing":
 				if !inHaltPart {
 					continue // not related to HALT: C01/C04
 				}
